@@ -48,7 +48,12 @@ func main() {
 	listFuncs := flag.Bool("listfuncs", false, "print the named functions of the analysed package (to regenerate baseline_funcs.txt on the pinned tree)")
 	listFields := flag.Bool("listfields", false, "print the struct types of the analysed package with their fields (to regenerate baseline_fields.txt on the pinned tree)")
 	bce := flag.String("bce", "", "thorough/C08: file with the compiler's -d=ssa/check_bce/debug=1 listing for cross-checking the obligation inventory")
+	crashed := flag.String("crashed", "", "internal: record that the analyser died with this message for -prop (fails closed: evidence + VIOLATION)")
 	flag.Parse()
+	if *crashed != "" && *prop != "" {
+		failLoad(*verif, *prop, *tier, 0, fmt.Errorf("the analyser itself ended abnormally (%s): nothing was decided, the check fails closed", *crashed), 0)
+		os.Exit(1)
+	}
 
 	seed := 0
 	if s := os.Getenv("VERIF_SEED"); s != "" {
